@@ -1,3 +1,5 @@
+//go:build go1.23
+
 package tbtc
 
 // C08: tECDSA signing by any honest quorum of the FINAL signing group.
